@@ -262,3 +262,83 @@ M.contract(P_FL + ':Sdv.resolve',
                         == self._files[k]._name.resolve(symbols).value_when_no_dir_dependencies()
                         and result._files[k].maker is self._files[k]._maker.resolve(symbols))},
            raises_only=())
+
+
+# ============================================================================== FILE-LIST syntax: = creates, += appends
+
+from exactly_lib.impls.types.files_source import syntax as fs_syntax
+from exactly_lib.impls.types.files_source.defs import ModificationType
+from exactly_lib.impls.types.files_source.impl import parse_file_list
+from exactly_lib.impls.types.files_source.impl.file_makers import dir_ as dir_maker, regular as regular_maker
+from pyvc.api import OneOf, EnumOf
+
+P_PFL = 'exactly_lib.impls.types.files_source.impl.parse_file_list'
+
+
+def _consume_if_in(head, constants):
+    if head is not None and head in constants:
+        return head
+    return None
+
+
+def _consume_optional_constant(interp, self, args, kwargs):
+    """consume_optional_constant_string_that_must_be_unquoted_and_equal(constants): the head token if it is an
+    unquoted string that is one of the constants (`head`: that string, None if there is no such token), else None"""
+    return interp.call(_consume_if_in, [interp.getattr(self, 'head'), args[0]], {})
+
+
+class ModTokenParserI(Interface):
+    """TokenParser as the parser of a file maker uses it (the token stream itself: C12 / C18)"""
+    attrs = {'head': Opt(Str)}
+    methods = {'consume_optional_constant_string_that_must_be_unquoted_and_equal':
+                   Method(model=_consume_optional_constant)}
+
+
+class ContentsParserI(Interface):
+    methods = {'parse': Method(returns=Any_, pure=True, may_raise=(Exception,))}
+
+
+PARSER_OF_FILE_MAKER = Inst(parse_file_list.ParserOfFileMaker, _contents_parser=Iface(ContentsParserI),
+                            _mk_file_maker=OneOf(parse_file_list._mk_file_maker__dir,
+                                                 parse_file_list._mk_file_maker__regular_file))
+
+
+def parsed_modification(head):
+    """Reference manual, FILE-SPEC: without `=` / `+=` a new, empty file; `=` creates; `+=` modifies an existing file"""
+    if head is None or head not in ('=', '+='):
+        return ModificationType.CREATE, False
+    return (ModificationType.CREATE if head == '=' else ModificationType.APPEND), True
+
+
+M.contract(P_PFL + ':ParserOfFileMaker._parse_contents',
+           params=dict(self=PARSER_OF_FILE_MAKER, token_parser=Iface(ModTokenParserI)), may_raise=(Exception,),
+           inline=True,
+           ensures={'no modification token: create, no contents; `=`: create, `+=`: append -- with the parsed contents':
+                        lambda self, token_parser, result:
+                        result[0] is parsed_modification(token_parser.head)[0]
+                        and ((result[1] is self._contents_parser.parse(token_parser))
+                             if parsed_modification(token_parser.head)[1] else result[1] is None)},
+           raises_only=())
+
+M.contract(P_PFL + ':ParserOfFileMaker.parse',
+           params=dict(self=PARSER_OF_FILE_MAKER, token_parser=Iface(ModTokenParserI)), may_raise=(Exception,),
+           ensures={'a directory / regular-file maker with the parsed modification': lambda self, token_parser, result:
+           isinstance(result, dir_maker.DirFileMakerSdv
+           if self._mk_file_maker is parse_file_list._mk_file_maker__dir else regular_maker.RegularFileMakerSdv)
+           and result._modification is parsed_modification(token_parser.head)[0]},
+           raises_only=())
+
+
+@M.check('file list syntax')
+def _file_list_syntax(ctx):
+    ctx.obligation('FILE-LIST: `=` creates, `+=` appends (syntax.EXPLICIT_CONTENTS_CONFIG)',
+                   dict(fs_syntax.EXPLICIT_CONTENTS_CONFIG) == {'=': ModificationType.CREATE,
+                                                                '+=': ModificationType.APPEND}, 'enumeration')
+    ctx.obligation('the parser of a file maker looks for exactly these two tokens',
+                   set(parse_file_list.ParserOfFileMaker._EXPLICIT_CONTENTS_TOKENS) == {'=', '+='}, 'enumeration')
+    p = parse_file_list.ParserOfFileSpec(None)
+    ctx.obligation('`file` entries get the regular-file maker, `dir` entries the directory maker',
+                   set(p._file_maker_parsers) == {'file', 'dir'}
+                   and p._file_maker_parsers['file']._mk_file_maker is parse_file_list._mk_file_maker__regular_file
+                   and p._file_maker_parsers['dir']._mk_file_maker is parse_file_list._mk_file_maker__dir,
+                   'enumeration')
